@@ -44,7 +44,11 @@ def main():
         ok, tail = st.run_suite(d)
         print("suite with change:", "pass" if ok else "FAIL", tail)
         env = dict(os.environ, PYTHONPATH=d)
-        p1 = subprocess.run(["/venv/bin/python", os.path.abspath(args.demo)], cwd=d, env=env, capture_output=True, text=True, timeout=900)
+        # some demonstrations locate the tree from their own path (<tree>/_result/demo.py): run a copy placed there
+        os.makedirs(os.path.join(d, "_result"), exist_ok=True)
+        demo_in_tree = os.path.join(d, "_result", os.path.basename(args.demo))
+        shutil.copy(args.demo, demo_in_tree)
+        p1 = subprocess.run(["/venv/bin/python", demo_in_tree], cwd=d, env=env, capture_output=True, text=True, timeout=900)
         env0 = dict(os.environ, PYTHONPATH="/repo")
         p0 = subprocess.run(["/venv/bin/python", os.path.abspath(args.demo)], cwd="/repo", env=env0, capture_output=True, text=True, timeout=900)
         subprocess.run(["git", "-C", "/repo", "status", "--short"], check=False)
